@@ -77,7 +77,15 @@ func Harness_C03_content_round_trip() {
 		return
 	}
 	if l > 0 {
-		switch style := vm.Choice("writeStyle", 4); {
+		switch style := vm.Choice("writeStyle", 5); {
+		case style == 4 && l <= 3:
+			// all of it, flushed with Sync, then grown by two bytes with Truncate and nothing else: the file ends in zeros
+			n, werr := h.Write(content)
+			serr := h.Sync()
+			terr := h.Truncate(int64(l + 2))
+			vm.Assert("C03.write_ok", werr == nil && n == l && serr == nil && terr == nil)
+			content = append(append([]byte{}, content...), 0, 0)
+			l += 2
 		case style == 3 && l >= 2 && l <= 3:
 			// all of it, shrunk to one byte (the offset stays behind the new end), then the rest once more: the gap
 			// reads as zeros, like on any file
